@@ -1,10 +1,14 @@
 pub mod c01;
 pub mod c02;
+pub mod c03;
+pub mod c04;
+pub mod c04c;
 pub mod c05;
 pub mod c08;
 pub mod c09;
 pub mod c12;
 pub mod dump;
+pub mod md;
 
 use crate::fw::Tier;
 
@@ -20,12 +24,15 @@ pub fn dispatch(id: &str, tier: Tier, seed: u64, replay: Option<&str>) -> i32 {
     match id {
         "C01" => d!(c01),
         "C02" => d!(c02),
+        "C03" => d!(c03),
+        "C04" => d!(c04),
         "C05" => d!(c05),
         "C08" => d!(c08),
         "C09" => d!(c09),
         "C12" => d!(c12),
         "dump2" => dump::run(2),
         "dump3" => dump::run(3),
+        "tapdebug" => dump::tap_debug(),
         _ => {
             eprintln!("unknown property {id}");
             2
